@@ -165,9 +165,10 @@ fn source_op(src: &mut SliceInputSource, variant: usize, consume: bool, k: usize
             4 => read_n::<4>(src, consume),
             _ => Err(()),
         },
-        // single-byte and copy-into API
+        // single-byte and copy-into API (variant 3: the copy-into API for every length, a destination of one byte or
+        // of none included - seeded change C12-s13 sat in a fast path for `[single]`)
         _ => {
-            if k == 1 {
+            if k == 1 && variant == 2 {
                 let r = if consume { src.read_byte() } else { src.peek_byte() };
                 r.map(|b| vec![b]).map_err(|_| ())
             } else if consume {
@@ -190,7 +191,7 @@ fn run_source(len: usize, ops: &[Value]) -> Option<Value> {
     for i in 0..len {
         arena[GUARD + i] = (100 + i + 1) as u8;
     }
-    for variant in 0..3 {
+    for variant in 0..4 {
         let window: &[u8] = &arena[GUARD..GUARD + len];
         let mut src = SliceInputSource::from(window);
         for (idx, op) in ops.iter().enumerate() {
